@@ -321,7 +321,9 @@ Qed.
 Lemma merge_group_head_uuids now si root root' lg :
   merge_group_head now si root = Ok (root', lg) -> incl (tree_uuids root') (tree_uuids root).
 Proof.
-  unfold merge_group_head. intro H. destruct (fnl_db _ _) as [loc|]; [|injection H as <- _; apply incl_refl].
+  intro H. apply merge_group_head_cases in H as [(ri & rc & ri' & -> & _ & _ & -> & _)|[_ H]].
+  { (* the root itself: the children are not touched *) rewrite !tree_uuids_NG. apply incl_refl. }
+  unfold merge_group_head_below in H. destruct (fnl_db _ _) as [loc|]; [|injection H as <- _; apply incl_refl].
   destruct (find_group _ root) as [[di dc]|] eqn:E1; cbn [of_option bind] in H; [|discriminate].
   destruct (group_merge_with now di si) as [[di' lg1]| | |] eqn:E2; cbn [bind] in H; try discriminate.
   destruct (put_group _ di' dc root) as [root1|] eqn:E3; cbn [of_option bind] in H; [|discriminate].
@@ -699,7 +701,9 @@ Qed.
 Lemma merge_group_head_created now si root root' lg :
   merge_group_head now si root = Ok (root', lg) -> created_uuids lg = [].
 Proof.
-  unfold merge_group_head. intro H. destruct (fnl_db _ _) as [loc|]; [|injection H as _ <-; reflexivity].
+  intro H. apply merge_group_head_cases in H as [(ri & rc & ri' & -> & _ & Em & -> & _)|[_ H]].
+  { (* the root itself *) eapply group_merge_with_created. exact Em. }
+  unfold merge_group_head_below in H. destruct (fnl_db _ _) as [loc|]; [|injection H as _ <-; reflexivity].
   destruct (find_group _ root) as [[di dc]|] eqn:E1; cbn [of_option bind] in H; [|discriminate].
   destruct (group_merge_with now di si) as [[di' lg1]| | |] eqn:E2; cbn [bind] in H; try discriminate.
   destruct (put_group _ di' dc root) as [root1|] eqn:E3; cbn [of_option bind] in H; [|discriminate].
